@@ -14,7 +14,8 @@ use tracing::{debug, warn};
 
 use crate::common::{Platform, Region, get_platform_string};
 use crate::common_file_operations::{
-    get_string_len, read_bool_from, read_string, write_bool_as, write_string,
+    get_string_len, read_bool_from, read_counted_bytes, read_counted_string, read_string, write_bool_as,
+    write_string,
 };
 use crate::sqpack::{read_data_block_patch, write_data_block_patch};
 
@@ -137,8 +138,7 @@ struct DirectoryChunk {
     #[bw(calc = get_string_len(name) as u32)]
     name_length: u32,
 
-    #[br(count = name_length)]
-    #[br(map = read_string)]
+    #[br(parse_with = read_counted_string, args(name_length as u64))]
     #[bw(map = write_string)]
     name: String,
 }
@@ -204,7 +204,7 @@ struct SqpkAddData {
     #[br(map = | x : u32 | (x as u64) << 7 )]
     block_delete_number: u64,
 
-    #[br(count = block_number)]
+    #[br(parse_with = read_counted_bytes, args(block_number))]
     block_data: Vec<u8>,
 }
 
@@ -277,8 +277,7 @@ struct SqpkFileOperationData {
     #[brw(pad_after = 2)]
     expansion_id: u16,
 
-    #[br(count = path_length)]
-    #[br(map = read_string)]
+    #[br(parse_with = read_counted_string, args(path_length as u64))]
     #[bw(map = write_string)]
     path: String,
 }
